@@ -216,5 +216,5 @@ def _first_diff(a, b):
 
 def run(rep):
     tier = rep.tier
-    st = plans.run_plan(rep, "vf.checks.c17", tier, plans.standard(tier, thorough_cap=1500, families=None))
+    st = plans.run_plan(rep, "vf.checks.c17", tier, plans.standard(tier, thorough_cap=400, families=None))
     fill_evidence(rep, st)
